@@ -43,8 +43,8 @@ CONSTANTS
   Methods1,    \* method variants available to the first transformation
   Methods2     \* method variants available to later transformations
 
-VARIABLES cfg, store, hist
-vars == <<cfg, store, hist>>
+VARIABLES cfg, store, hist, chk
+vars == <<cfg, store, hist, chk>>
 
 Names == {"field", "alt", "alt2", "krige_var", "mean_field", "raw_field", "raw_krige"}
 StoreArgs == {"T", "F", "alt"}          \* store=True | False | "alt"
@@ -61,9 +61,14 @@ Push(t, tok) == IF Len(t) > 1 /\ t[Len(t)] = Inv(tok) THEN SubSeq(t, 1, Len(t) -
 RECURSIVE PushAll(_, _)
 PushAll(t, toks) == IF toks = <<>> THEN t ELSE PushAll(Push(t, Head(toks)), Tail(toks))
 
-Absent == [off |-> <<>>, at |-> <<>>]
-Both(t) == [off |-> t, at |-> t]
-ApplyE(e, toks) == [off |-> PushAll(e.off, toks), at |-> PushAll(e.at, toks)]
+(* entries: objects with conditioning data carry the two views, the others a single term *)
+HasCond == Kind \in {"Krige", "CondSRF"}
+E(off, at) == IF HasCond THEN [off |-> off, at |-> at] ELSE off
+Both(t) == E(t, t)
+Absent == Both(<<>>)
+Off(e) == IF HasCond THEN e.off ELSE e
+At(e)  == IF HasCond THEN e.at ELSE e
+ApplyE(e, toks) == E(PushAll(Off(e), toks), PushAll(At(e), toks))
 
 Opt(cond, tok) == IF cond THEN <<tok>> ELSE <<>>
 (* keepMean: the mean is left in / not re-applied (transformations with keep_mean=True) *)
@@ -78,20 +83,27 @@ PostIf(cf, pp) == IF pp THEN PostOps(cf, FALSE) ELSE <<>>
    stored, a string -> that name *)
 NameOf(st, default) == IF st \in {"T", "F"} THEN default ELSE st
 Saves(st) == st # "F"
-Put(s, st, default, e) == IF Saves(st) THEN [s EXCEPT ![NameOf(st, default)] = e] ELSE s
-Stored(s) == {n \in Names : s[n] # Absent}
+(* the store is a function from the stored names to entries *)
+Bind(s, n, e) == [x \in (DOMAIN s) \cup {n} |-> IF x = n THEN e ELSE s[x]]
+Put(s, st, default, e) == IF Saves(st) THEN Bind(s, NameOf(st, default), e) ELSE s
+Stored(s) == DOMAIN s
 
 NoRec == [op |-> "-", pp |-> FALSE, st |-> "-", only |-> FALSE, src |-> "-", method |-> "-",
           process |-> FALSE, keepMean |-> FALSE, meanArg |-> "-", status |-> "ok",
-          name |-> "-", save |-> FALSE, srcE |-> Absent, res |-> Absent, aux |-> Absent, names |-> {}]
+          name |-> "-", save |-> FALSE, res |-> Absent, aux |-> Absent, names |-> {}]
+NoChk == [srcE |-> Absent, data |-> Absent]
 
 Calls == Len(SelectSeq(hist, LAMBDA r : r.op \in {"call", "getmean", "vario"}))
 Trans == Len(SelectSeq(hist, LAMBDA r : r.op = "transform"))
 
-Step(newStore, rec) ==
+(* chk: the source entry and the data handed to the array function by the last transformation
+   (only read by the invariants) *)
+StepC(newStore, rec, c) ==
   /\ store' = newStore
   /\ hist' = Append(hist, [rec EXCEPT !.names = Stored(newStore)])
+  /\ chk' = c
   /\ UNCHANGED cfg
+Step(newStore, rec) == StepC(newStore, rec, NoChk)
 
 -----------------------------------------------------------------------------
 (* generating calls *)
@@ -112,12 +124,11 @@ CondRaw == PushAll(<<"cond">>, PreOps(cfg, FALSE))
 KrigeCall(pp, st, only) ==
   /\ Kind = "Krige"
   /\ LET e == IF only THEN Both(PushAll(<<"est">>, PostIf(cfg, pp)))
-              ELSE [off |-> PushAll(<<"kraw">>, PostIf(cfg, pp)),
-                    at  |-> PushAll(CondRaw, PostIf(cfg, pp))]
+              ELSE E(PushAll(<<"kraw">>, PostIf(cfg, pp)), PushAll(CondRaw, PostIf(cfg, pp)))
          v == Both(<<"kvar">>)
          d == IF only THEN "mean_field" ELSE "field"
          s1 == Put(store, st, d, e)
-         s2 == IF only \/ ~Saves(st) THEN s1 ELSE [s1 EXCEPT !["krige_var"] = v]
+         s2 == IF only \/ ~Saves(st) THEN s1 ELSE Bind(s1, "krige_var", v)
      IN  Step(s2, [NoRec EXCEPT !.op = "call", !.pp = pp, !.st = st, !.only = only,
                                 !.name = NameOf(st, d), !.save = Saves(st), !.res = e,
                                 !.aux = IF only THEN Absent ELSE v])
@@ -137,11 +148,11 @@ GetMean(pp) ==
    points the kriging variance and therefore the random part vanish *)
 CondCall(pp, st) ==
   /\ Kind = "CondSRF"
-  /\ LET e  == [off |-> PushAll(<<"craw">>, PostIf(cfg, pp)), at |-> PushAll(CondRaw, PostIf(cfg, pp))]
-         rk == [off |-> <<"kraw">>, at |-> CondRaw]
-         kf == [off |-> PushAll(<<"kraw">>, PostIf(cfg, pp)), at |-> PushAll(CondRaw, PostIf(cfg, pp))]
+  /\ LET e  == E(PushAll(<<"craw">>, PostIf(cfg, pp)), PushAll(CondRaw, PostIf(cfg, pp)))
+         rk == E(<<"kraw">>, CondRaw)
+         kf == E(PushAll(<<"kraw">>, PostIf(cfg, pp)), PushAll(CondRaw, PostIf(cfg, pp)))
          s1 == Put(store, st, "field", e)
-         s2 == IF Saves(st) THEN [s1 EXCEPT !["raw_field"] = Both(<<"gen">>), !["raw_krige"] = rk] ELSE s1
+         s2 == IF Saves(st) THEN Bind(Bind(s1, "raw_field", Both(<<"gen">>)), "raw_krige", rk) ELSE s1
      IN  Step(s2, [NoRec EXCEPT !.op = "call", !.pp = pp, !.st = st, !.name = NameOf(st, "field"),
                                 !.save = Saves(st), !.res = e,
                                 \* the kriging sub-object's field is only pinned for the first call
@@ -175,35 +186,36 @@ FnTok(m, a) == "fn:" \o m[1] \o ":" \o m[2] \o ":" \o a
 Transform(m, src, st, process, keepMean) ==
   /\ Kind \in {"Field", "SRF"}
   /\ LET a        == MeanArg(cfg, m, process, keepMean)
-         missing  == store[src] = Absent
+         missing  == src \notin Stored(store)
+         srcE     == IF missing THEN Absent ELSE store[src]
          rejected == ~process /\ NeedsNormal(m) /\ ~DefaultNormal(cfg)
-         \* a position dependent (or, for the binary defaults, missing) mean cannot be handed
-         \* to an array function: the documentation leaves the outcome open
-         open     == a = "call" \/ (m = <<"binary", "default">> /\ a = "none")
+         \* a position dependent mean (or, where the array function documents a number only: the
+         \* binary defaults and force_moments, a missing mean) cannot be handed to an array
+         \* function: the documentation leaves the outcome open
+         open     == a = "call" \/ (m \in {<<"binary", "default">>, <<"force_moments", "-">>} /\ a = "none")
          toks     == (IF process THEN PreOps(cfg, keepMean) ELSE <<>>)
                      \o (IF m[1] = "identity" THEN <<>> ELSE <<FnTok(m, a)>>)
                      \o (IF process THEN PostOps(cfg, keepMean) ELSE <<>>)
-         e        == ApplyE(store[src], toks)
+         e        == ApplyE(srcE, toks)
          status   == IF missing THEN "keyerror" ELSE IF rejected THEN "rejected"
                      ELSE IF open THEN "open" ELSE "ok"
          rec      == [NoRec EXCEPT !.op = "transform", !.src = src, !.st = st, !.method = m[1] \o ":" \o m[2],
                                    !.process = process, !.keepMean = keepMean, !.meanArg = a,
                                    !.status = status, !.name = NameOf(st, src), !.save = Saves(st),
-                                   !.srcE = store[src],
-                                   !.res = IF status = "ok" THEN e ELSE Absent,
-                                   \* the data handed to the array function (for MeanArgConsistent)
-                                   !.aux = IF status = "ok" /\ process
-                                           THEN ApplyE(store[src], PreOps(cfg, keepMean))
-                                           ELSE IF status = "ok" THEN store[src] ELSE Absent]
-     IN  Step(IF status = "ok" THEN Put(store, st, src, e) ELSE store, rec)
+                                   !.res = IF status = "ok" THEN e ELSE Absent]
+         data     == IF status = "ok" /\ process THEN ApplyE(srcE, PreOps(cfg, keepMean))
+                     ELSE IF status = "ok" THEN srcE ELSE Absent
+     IN  StepC(IF status = "ok" THEN Put(store, st, src, e) ELSE store, rec,
+               [srcE |-> srcE, data |-> data])
 
 -----------------------------------------------------------------------------
 Cfgs == [mean : MeanKinds, norm : NormKinds, trend : TrendKinds, vtype : VTypes, mesh : Meshes,
          ktype : KTypes]
 
 Init == /\ cfg \in Cfgs
-        /\ store = [n \in Names |-> Absent]
+        /\ store = <<>>
         /\ hist = <<>>
+        /\ chk = NoChk
 
 Flags == {<<TRUE, TRUE>>, <<TRUE, FALSE>>, <<FALSE, TRUE>>}   \* <<process, keep_mean>>; keep_mean is
                                                                \* irrelevant without process
@@ -241,12 +253,12 @@ PreInvertsPost ==
 (* an object with conditioning data returns the data at the conditioning points *)
 HonoursData ==
   (hist # <<>> /\ Last.op = "call" /\ Last.pp /\ ~Last.only /\ Kind \in {"Krige", "CondSRF"}) =>
-     Last.res.at = <<"cond">>
+     At(Last.res) = <<"cond">>
 
 (* every generated output has the documented form *)
 DocumentedForm ==
   (hist # <<>> /\ Last.op = "call" /\ Kind \in {"Field", "SRF"}) =>
-     Last.res.off = (<<IF Kind = "Field" THEN "in" ELSE "raw">>
+     Off(Last.res) = (<<IF Kind = "Field" THEN "in" ELSE "raw">>
                      \o (IF Last.pp THEN Opt(cfg.mean # "none", "addmean") \o Opt(cfg.norm, "denorm")
                                          \o Opt(cfg.trend # "none", "addtrend") ELSE <<>>))
 
@@ -254,14 +266,14 @@ DocumentedForm ==
    (pre-processing followed by post-processing cancels on every term) *)
 IdentityIsNoop ==
   (hist # <<>> /\ Last.op = "transform" /\ Last.status = "ok" /\ Last.method = "identity:-") =>
-     Last.res = Last.srcE
+     Last.res = chk.srcE
 
 (* the mean handed to the array function is the mean the data really carry: for a field that
    was generated with post-processing, the data after pre-processing are  raw (+ mean) *)
 MeanArgConsistent ==
   (hist # <<>> /\ Last.op = "transform" /\ Last.status = "ok" /\ Last.meanArg # "-"
      /\ Len(hist) = 2 /\ hist[1].op = "call" /\ hist[1].pp) =>
-        LET data == Last.aux.off
+        LET data == Off(chk.data)
         IN  /\ Len(data) <= 2
             /\ Len(data) = 1 => Last.meanArg \in {"zero", "none"}
             /\ Len(data) = 2 => (data[2] = "addmean" /\ Last.meanArg = cfg.mean)
